@@ -3296,4 +3296,108 @@ theorem layout_length (o : Obj) (h : Bytes) (res : LayoutRes) (hl : layoutOf o h
   obtain ⟨flen, -⟩ := looseSpec_facts o.cls res.segs res.lay2.secs 0 res.lay2.pos hnw3
   rw [hloose.1, flen, hlen]
 
+/-! ### nested segments: they start at their first member's offset -/
+
+/-- the segment's first member has already been generated (by an enclosing segment) and the segment
+    is neither the PHDR nor the offset-0 special case: it starts at that member's offset -/
+def segNestedStartB (lay : Layout) (g : Seg) : Bool :=
+  !lseg_is_phdr g.stype (BitVec.ofNat 16 g.secs.length) && !lseg_offset0 g.offsetSet g.offset &&
+    match g.secs.head? with
+    | some f => lay.gen[f.toNat]? == some true
+    | none => false
+
+theorem layoutSegment_nested_start (c : Cls) (hdrPhoff : BitVec 64) (phentsize phnum : BitVec 16)
+    (lay lay' : Layout) (g g' : Seg) (hnw : segNW c hdrPhoff phentsize phnum lay g = true)
+    (hns : segNestedStartB lay g = true)
+    (h : layoutSegment c hdrPhoff phentsize phnum lay g = .ok (some (lay', g'))) :
+    ∃ f s, g.secs.head? = some f ∧ lay.Gen f.toNat ∧ lay.secs[f.toNat]? = some s ∧ g'.offset = s.offset := by
+  obtain ⟨fg, r, st, hfg, hin, hloop, rfl, rfl⟩ := layoutSegment_parts c hdrPhoff phentsize phnum lay lay' g g' h
+  unfold segNestedStartB at hns
+  simp only [Bool.and_eq_true, Bool.not_eq_true'] at hns
+  obtain ⟨⟨h1, h2⟩, h3⟩ := hns
+  cases hh : g.secs.head? with
+  | none => rw [hh] at h3; exact nomatch h3
+  | some f =>
+    rw [hh] at h3
+    have hgen : lay.gen[f.toNat]? = some true := by simpa using h3
+    have hlen : g.secs.length > 0 := by
+      cases hs : g.secs with
+      | nil => rw [hs] at hh; exact nomatch hh
+      | cons a b => simp
+    have hfg' : fg = true := by
+      unfold segFirstGen at hfg
+      rw [hh] at hfg; simp only at hfg; rw [hgen] at hfg
+      simp only [pure, Except.pure, Except.ok.injEq] at hfg
+      exact hfg.symm
+    subst hfg'
+    unfold segNW at hnw
+    rw [hfg] at hnw
+    simp only at hnw
+    rw [hin] at hnw
+    simp only [Bool.and_eq_true, decide_eq_true_eq] at hnw
+    obtain ⟨⟨-, hsfit⟩, -⟩ := hnw
+    unfold segInit at hin
+    simp only [h1, h2, Bool.false_eq_true, if_false, hlen, decide_true, Bool.not_true, Bool.and_false,
+      if_true, hh] at hin
+    cases hs : lay.secs[f.toNat]? with
+    | none => rw [hs] at hin; simp [throw, throwThe, MonadExceptOf.throw] at hin
+    | some s =>
+      rw [hs] at hin
+      simp only [pure, Except.pure, Except.ok.injEq] at hin
+      subst hin
+      refine ⟨f, s, rfl, hgen, hs, ?_⟩
+      rw [(segFinish_fields c g _ st).1]
+      exact truncA_of_fits c _ hsfit
+
+/-- "`P` holds at the turn of every selected segment" for a successful layout -/
+def layoutSelB (P : Layout → Seg → Bool) (sel : Nat → Bool) (o : Obj) (h : Bytes) : Bool :=
+  match layoutOf o h with
+  | .ok (some res) =>
+    segsAllB (fun lay g => !sel g.index || P lay g)
+      o.cls (Hdr.e_phoff o.cls o.enc res.hdr0) (Hdr.e_phentsize o.cls o.enc res.hdr0)
+      (Hdr.e_phnum o.cls o.enc res.hdr0) res.ordered (lay0Of o res.pos0)
+  | _ => true
+
+/-- a nested segment of the final object starts at the final offset of its first member -/
+theorem final_nested_start (o : Obj) (h : Bytes) (res : LayoutRes) (hl : layoutOf o h = .ok (some res))
+    (hnw : layoutNW o h = true) (hn : o.secs.length < 65536)
+    (h0 : ∀ (i : Nat) (s : SecBuf), o.secs[i]? = some s → s.Occ → s.index ≠ 0)
+    (hnd : (o.segs.map (·.index)).Nodup) (sel : Nat → Bool)
+    (hnest : layoutSelB segNestedStartB sel o h = true)
+    (g' : Seg) (hg : g' ∈ res.segs) (hsel : sel g'.index = true) :
+    ∃ f s, g'.secs.head? = some f ∧ res.secs[f.toNat]? = some s ∧ g'.offset = s.offset := by
+  obtain ⟨t, ht, rfl⟩ := final_segs_turn o h res hl hnw hn h0 hnd g' hg
+  obtain ⟨-, -, e3⟩ := layoutOf_trace o h res hl hnw hn h0
+  obtain ⟨f1, f2, f3, f4, f5, f6⟩ := e3 t ht
+  obtain ⟨hmarks, hsecs, hidx, -, -, -⟩ := layoutSegment_marks _ _ _ _ _ _ _ _ _ f3 f2 f1
+  unfold layoutSelB at hnest
+  rw [hl] at hnest
+  have hturn := segsAllB_trace _ _ _ _ _ _ _ hnest t ht
+  rw [hidx] at hsel
+  simp only [hsel, Bool.not_true, Bool.false_or] at hturn
+  obtain ⟨f, s, hh, hgen, hs, hoff⟩ := layoutSegment_nested_start _ _ _ _ t.lay t.lay' t.g t.g' f2 hturn f1
+  obtain ⟨-, hstepT⟩ := layoutSegment_inv _ _ _ _ t.lay t.lay' t.g t.g' _ f3 f2 f1
+  have hfm : f ∈ t.g'.secs := by
+    rw [hsecs]
+    cases hq : t.g.secs with
+    | nil => rw [hq] at hh; exact nomatch hh
+    | cons a b => rw [hq] at hh; simp only [List.head?_cons, Option.some.injEq] at hh; subst hh; exact List.mem_cons_self
+  have hw := withoutSegment_false_of_mem res.segs t.g' hg f hfm
+  -- the section is framed from the turn to the end of pass 2 and not touched by pass 3
+  have h2 : res.lay2.secs[f.toNat]? = some s := f5.frame _ _ (hstepT.genMono _ hgen) (hstepT.frame _ _ hgen hs)
+  have hlt : f.toNat < res.secs.length := by
+    have := layout_length o h res hl hnw hn h0
+    rw [this]
+    have hl2 : res.lay2.secs.length = o.secs.length := by
+      have := (f4.trans (hstepT.trans f5)).len; exact this
+    rw [← hl2]
+    rcases Nat.lt_or_ge f.toNat res.lay2.secs.length with h' | h'
+    · exact h'
+    · rw [List.getElem?_eq_none h'] at h2; exact nomatch h2
+  have hk : res.secs[f.toNat]? = some res.secs[f.toNat] := List.getElem?_eq_getElem hlt
+  obtain ⟨s2, hs2, -, hsame, -⟩ := layout_final_desc o h res hl hnw f.toNat _ hk
+  rw [h2] at hs2; simp only [Option.some.injEq] at hs2; subst hs2
+  refine ⟨f, s, by rw [hsecs]; exact hh, ?_, hoff⟩
+  rw [hk, hsame hw]
+
 end ElfioVerif
